@@ -92,10 +92,19 @@ def sess_damaged(seed, explore=False):
         tmap = {}
         for e, paths in gen.path_tracker(lines):
             tmap[id(e)] = [types[p['spine']] for p in paths]
+        picks = []
         for (li, ci) in r.sample(cand, min(len(cand), r.choice([1, 1, 2, 3, 4]))):
+            bad = r.choice(STOPPER if explore else STRICT)
+            picks.append((li, ci, bad))
+            if r.random() < 0.3:                 # the SAME malformed text in other cells of the same line (one error per cell, not per text)
+                picks += [(li, cj, bad) for cj in range(len(lines[li]['cells'])) if cj != ci and r.random() < 0.6]
+        done = set()
+        for (li, ci, bad) in picks:
+            if (li, ci) in done:
+                continue
+            done.add((li, ci))
             e = lines[li]
             ht = tmap[id(e)][ci]
-            bad = r.choice(STOPPER if explore else STRICT)
             if ht in gen.KERNLIKE:
                 e['cells'][ci] = gen.lit('err', bad)
                 if explore:
